@@ -361,6 +361,9 @@ def c19(tier, seed):
               '9223372036854775807 * 2', '1 +', '(1 + 2', '1 + 2)', '2 ^ 70', '0 ^ 0', '1.0 / 0',
               '170141183460469231731687303715884105728 - 1', '340282366920938463463374607431768211456 + 0', '-170141183460469231731687303715884105729 + 1'):
         out.append({'line': l + '; echo alive', 'expect_stdout_last_line': 'alive', 'area': 'calculator:never-crashes', 'timeout': 5})
+    # the result cannot be written (stdout full or closed): a diagnostic and a non-zero status, the shell goes on
+    out.append({'line': '{CICADA} -c "1 + 2; echo next" > /dev/full; echo rc=$?; {CICADA} -c "2 * 3" >&-; echo rc=$?', 'expect_stdout': 'rc=1\nrc=1\n',
+                'area': 'calculator:never-crashes:stdout-cannot-be-written', 'timeout': 5})
     return out
 
 
